@@ -1166,11 +1166,11 @@ def differential(ctx):
     from hiten.algorithms.dynamics.rhs import create_rhs_system
     rng = ctx.rng
     g_obj = create_rhs_system(generic_swappable(), 6, name="verif-generic")
-    nham = 6 if ctx.thorough() else 3
+    nham = 6 if ctx.thorough() else 2
     stats = {"runs": 0, "bitwise_equal": 0, "rounding_level": 0, "worst_rel": 0.0, "event_hits": 0, "closure_runs": 0, "sysrhs_runs": 0}
     found = set()
     for hi in range(nham):
-        deg = [4, 6, 8, 5, 7, 8][hi] if ctx.thorough() else [4, 6, 8][hi]
+        deg = [4, 6, 8, 5, 7, 8][hi] if ctx.thorough() else [4, 7][hi]
         hd = rand_ham(rng, deg, nterms=8 if deg >= 7 else 10)
         sysm, H = PU.ham_system(hd, deg)
         use_system(sysm)
